@@ -211,7 +211,7 @@ def r2(ctx):
     f = ctx.facts
     drops = permit_returning_drops(ctx)
     # only a destructor covers every way a task can end (return, error, timeout, panic, abort of the task)
-    rep.check(len(drops) == 1, "drop:returns-permit", "one Drop impl returns the permit (%s)" % [d.impl_self for d in drops], "%d Drop impls return permits (%s): the slot must be returned by the destructor of the Client (or of a value it owns) — code at the end of the task does not run when the task ends by an early return, `?`, a panic or an abort, and the slot is lost" % (len(drops), [d.impl_self for d in drops]), f.one(CLIENT + "::handle").loc())
+    rep.check(len(drops) == 1, "drop:returns-permit", "one Drop impl returns the permit (%s)" % [d.impl_self for d in drops], "%d Drop impls return permits (%s): the slot must be returned by the destructor of the Client (or of a value it owns) — code at the end of the task does not run when the task ends by an early return, `?`, a panic or an abort, and the slot is lost" % (len(drops), [d.impl_self for d in drops]), safe_loc(f, CLIENT + "::handle"))
     if len(drops) != 1:
         return rep
     db = drops[0]
